@@ -1503,6 +1503,20 @@ def np_abs(interp, st, a, **kw):
 
 
 @native
+def np_minimum(interp, st, a, b, **kw):
+    if isinstance(a, (Arr, CArr)) or isinstance(b, (Arr, CArr)):
+        return elementwise2(interp, st, lambda x, y: interp.A.minimum(interp.use(st, x), interp.use(st, y)), a, b)
+    return interp.A.minimum(interp.use(st, a), interp.use(st, b))
+
+
+@native
+def np_maximum(interp, st, a, b, **kw):
+    if isinstance(a, (Arr, CArr)) or isinstance(b, (Arr, CArr)):
+        return elementwise2(interp, st, lambda x, y: interp.A.maximum(interp.use(st, x), interp.use(st, y)), a, b)
+    return interp.A.maximum(interp.use(st, a), interp.use(st, b))
+
+
+@native
 def np_log10(interp, st, a, **kw):
     f = interp.A.uf("log10f")
 
@@ -1587,7 +1601,7 @@ LIB = {
     "numpy.isfinite": np_isfinite, "numpy.cos": _np_ew("cos"), "numpy.sqrt": _np_ew("sqrt"), "numpy.log": _np_ew("log"),
     "numpy.median": np_median, "numpy.nanmedian": np_nanmedian, "numpy.unique": np_unique, "numpy.sort": np_sort, "numpy.where": np_where,
     "numpy.any": np_any, "numpy.all": np_all, "numpy.diff": np_diff, "numpy.searchsorted": np_searchsorted,
-    "numpy.log10": np_log10, "numpy.dtype": np_dtype,
+    "numpy.log10": np_log10, "numpy.minimum": np_minimum, "numpy.maximum": np_maximum, "numpy.dtype": np_dtype,
     "numba.prange": numba_prange,
     "scipy.special.digamma": _special("digamma", 1), "scipy.special.gammainc": _special("gammainc", 2),
     "scipy.special.ndtri": _special("ndtri", 1),
